@@ -1,5 +1,7 @@
 import Driver.Proto
 import Neutrino.Spec.Converge
+import Neutrino.Spec.Ban
+import Driver.Drv.Ban
 open Neutrino.Converge
 namespace Driver.Drv.Net
 
@@ -15,6 +17,7 @@ Trace lines (harness/netsim).  Case header: `<c04|c13|c15|c17> <name> ...`.
   asked <i>                               => getheaders <0|1> … lied <0|1>
   stop                                    => ok | HANG
   banpeer <i> / after                     => ok|err / <sample observation>                 (c13)
+  peerip / isbanned / ban / unban / redial  see harness/netsim/c13ops.go                      (c13s)
   sendtx / saw <i>                        => ok|err|HANG / invtx <0|1>                      (c15)
   label <i> <class> / rebroadcast         => <node> <CODE> <reason> / seen|not-seen       (c15 corpus scenarios)
   call <Name> / reopen                    => hung <k> / best … btip … ftip … chain … fchain … | err   (c17)
@@ -174,6 +177,73 @@ def runC13 (c : CaseIn) : Array String := Id.run do
           let shape := if i != target && ipOf i == ipOf target && portOf i != portOf target
             then "banpeer-same-ip-other-port" else "banned-peer-connected"
           out := out.push s!"ORACLE-FAIL C13 case {c.num} line {ln}: shape={shape} peer {i} ({ipOf i}:{portOf i}) is still connected although its address is banned (ban aimed at peer {target}, {ipOf target}:{portOf target}): {obs}"
+        -- a ban is per IP: every listed peer sharing the IP of a banned peer is reported banned as well
+        for px in peers do
+          if !o.banned.contains px.spec.idx &&
+              peers.any (fun q => o.banned.contains q.spec.idx && q.ip == px.ip && q.ip != "") then
+            out := out.push s!"ORACLE-FAIL C13 case {c.num} line {ln}: shape=ban-not-per-ip peer {px.spec.idx} ({px.ip}:{px.port}) is reported not banned although another address of the same IP is banned: {obs}"
+        -- a peer that does not offer both WITNESS and CF is banned and not kept
+        for px in peers do
+          if px.spec.kind == .noServices && (!o.banned.contains px.spec.idx || o.conn.contains px.spec.idx) then
+            out := out.push s!"ORACLE-FAIL C13 case {c.num} line {ln}: shape=peer-lacking-service-kept peer {px.spec.idx} does not offer {px.spec.variant} but is {if o.conn.contains px.spec.idx then "connected" else "not connected"} and {if o.banned.contains px.spec.idx then "banned" else "not banned"}: {obs}"
+      | none => out := out.push s!"DIFF C13 case {c.num} line {ln}: unparsable observation <{obs}>"
+    | ["asked", i] =>
+      -- ... and is never used for a query
+      match peers.find? (·.spec.idx == nat! i), words obs with
+      | some px, ["getheaders", a, "getcfcheckpt", b, "getcfheaders", c', "getcfilters", d, "getdata", e, "sessions", _, "lied", _] =>
+        if px.spec.kind == .noServices && [a, b, c', d, e].any (· != "0") then
+          out := out.push s!"ORACLE-FAIL C13 case {c.num} line {ln}: shape=peer-lacking-service-queried peer {i} does not offer {px.spec.variant} but was sent requests: {obs}"
+      | _, _ => pure ()
+    | ["stop"] => if obs == "HANG" then out := out.push s!"ORACLE-FAIL C13 case {c.num} line {ln}: shape=stop-hang Stop did not return"
+    | ["setup"] | ["start"] => out := out.push s!"DIFF C13 case {c.num} line {ln}: the simulation could not be set up: {obs}"
+    | _ => pure ()
+  return out
+
+/-! ### C13 at the ChainService level: IsBanned / BanPeer / UnbanPeer over spellings, and the reconnect path -/
+
+def targetOfHex (h : String) : Neutrino.Ban.Target :=
+  { via := .parse, ip := Driver.Drv.Ban.parseHex h, mask := none }
+
+def runC13s (c : CaseIn) : Array String := Id.run do
+  let mut out : Array String := #[]
+  let mut banned : Neutrino.Ban.BanSet := []
+  let mut peerIds : List (Nat × Option Neutrino.Ban.NetId) := []
+  for (ln, line) in c.lines do
+    let (op, obs) := splitObs line
+    match words op with
+    | ["peerip", i] => peerIds := peerIds ++ [(nat! i, Neutrino.Ban.idOf (targetOfHex obs))]
+    | "isbanned" :: h :: text =>
+      if obs != "0" && obs != "1" then
+        out := out.push s!"ORACLE-FAIL C13 case {c.num} line {ln}: shape=call-hang IsBanned({text}) => {obs}"
+      else if !Neutrino.Ban.isBannedOk banned (targetOfHex h) (obs == "1") then
+        let shape := if obs == "1" then "isbanned-true-for-unbanned-ip" else "isbanned-false-for-banned-ip"
+        out := out.push s!"ORACLE-FAIL C13 case {c.num} line {ln}: shape={shape} IsBanned({" ".intercalate text}) = {obs}, but by the history of BanPeer/UnbanPeer calls the IP {h} is {if obs == "1" then "not banned" else "banned"}"
+    | "ban" :: h :: text =>
+      match Neutrino.Ban.idOf (targetOfHex h) with
+      | some id =>
+        banned := banned.ban id
+        if obs != "ok" then
+          out := out.push s!"ORACLE-FAIL C13 case {c.num} line {ln}: shape=banpeer-failed BanPeer({" ".intercalate text}) => {obs}"
+      | none =>
+        if obs == "ok" then
+          out := out.push s!"ORACLE-FAIL C13 case {c.num} line {ln}: shape=banpeer-unparsable-ok BanPeer({" ".intercalate text}) => ok"
+    | "unban" :: h :: _ =>
+      -- the store call precedes the reconnect attempt whose error UnbanPeer returns: the result is not judged
+      match Neutrino.Ban.idOf (targetOfHex h) with
+      | some id => banned := banned.unban id
+      | none => pure ()
+    | ["after"] =>
+      match parseObs (words obs) with
+      | some (o, _) =>
+        for (i, id?) in peerIds do
+          match id? with
+          | some id =>
+            let isB := banned.contains id
+            if isB && o.conn.contains i then
+              out := out.push s!"ORACLE-FAIL C13 case {c.num} line {ln}: shape=banned-ip-connected peer {i} is connected although its IP is banned: {obs}"
+            if isB != o.banned.contains i then
+              out := out.push s!"ORACLE-FAIL C13 case {c.num} line {ln}: shape={if isB then "isbanned-false-for-banned-ip" else "isbanned-true-for-unbanned-ip"} IsBanned(address of peer {i}) = {if o.banned.contains i then 1 else 0}: {obs}"
+          | none => pure ()
       | none => out := out.push s!"DIFF C13 case {c.num} line {ln}: unparsable observation <{obs}>"
     | ["stop"] => if obs == "HANG" then out := out.push s!"ORACLE-FAIL C13 case {c.num} line {ln}: shape=stop-hang Stop did not return"
     | ["setup"] | ["start"] => out := out.push s!"DIFF C13 case {c.num} line {ln}: the simulation could not be set up: {obs}"
@@ -286,6 +356,7 @@ def runCase : CaseFn := fun c =>
   match c.header.headD "" with
   | "c04" => runC04 c
   | "c13" => runC13 c
+  | "c13s" => runC13s c
   | "c15" => runC15 c
   | "c17" => runC17 c
   | h => #[s!"DIFF C04 case {c.num} line 0: unknown case kind <{h}>"]
